@@ -174,6 +174,15 @@ class C19(Client):
             self.exits.append(('throw', dirty, node['t']))
         else:
             rv = ret_value(node) if kind == 'return' else None
+            if kind == 'return' and not isinstance(rv, bool) and isinstance(node, dict) and node.get('e') is not None:
+                # `return f(...)` / `return flag`: the value is the outcome of the call just made, or of the call the local was bound to
+                e = see_through(node['e'])
+                if isinstance(e, dict) and e.get('k') == 'call' and last is not None:
+                    rv = last
+                elif isinstance(e, dict) and e.get('k') == 'ref':
+                    for v, val in binds:
+                        if v == e['n']:
+                            rv = val
             self.exits.append(('ret', dirty, rv if isinstance(rv, bool) else None))
 
 
@@ -309,6 +318,17 @@ def run(src, tier, seed):
         'invariant-guarded container .at() lookups and allocation failure are not exceptional edges here',
         'error reports inside catch(std::exception)/catch(...) handlers are internal-error reports, not rejections of a command',
     ]
+    # the tables name their functions; a function that no longer exists must not make a command look free of mutations
+    rec = [f for f in fx.F.values() if f.get('class') == 'opensmt::DefinedFunctions' and f.get('body') and any(is_call(n, 'push', 'this.scopedNames') for n in fwalk(f))]
+    if len(rec) != 1:
+        raise AnalysisBroken('DefinedFunctions: expected one method that appends to the scope log, found %s' % [f['name'] for f in rec])
+    for tab in (LEAF_MUT, COND_MUT):
+        tab.pop('opensmt::DefinedFunctions::insert', None)
+        tab.pop(rec[0]['name'], None)
+    (COND_MUT if rec[0].get('ret') == 'bool' else LEAF_MUT)[rec[0]['name']] = 'define-fun recorded'
+    for name in list(LEAF_MUT) + list(COND_MUT):
+        if not fx.funcs(name) and not any(f['name'].split('::')[-1] == name.split('::')[-1] and name.startswith('opensmt::Logic::') for f in fx.F.values()):
+            raise AnalysisBroken('mutator table: %s no longer exists (renamed or removed): the table must be re-confirmed' % name)
     E = Escape(fx, model_at=False)
     r = res.rule('commit-after-validate', 'no error response is issued on a path on which persistent state was already mutated (per command arm of Interpret::interp)', floor=20)
     ctx = Ctx(fx, E, res, r)
